@@ -22,6 +22,8 @@ func main() {
 		runC03(ev.Parse("model_checking"))
 	case "C04":
 		runC04(ev.Parse("model_checking"))
+	case "C12":
+		runC12(ev.Parse("model_checking"))
 	case "C13":
 		runC13(ev.Parse("model_checking"))
 	default:
